@@ -147,6 +147,9 @@ func writeEvidence(g *Gen, path, prop, tier string, seed int, obs, failed, known
 	for f, why := range trusted {
 		tb = append(tb, "trusted contract (body not verified): "+f+": "+why)
 	}
+	for n, txt := range g.definitional {
+		tb = append(tb, "definitional clause (names a function already pinned by a proved clause; assumed at call sites, no obligation): "+n+": "+txt)
+	}
 	var abs []string
 	for k, n := range g.abstracted {
 		abs = append(abs, fmt.Sprintf("%s (x%d)", k, n))
